@@ -36,6 +36,7 @@ import (
 	"github.com/bufbuild/buf/private/pkg/storage/storagearchive"
 	"github.com/bufbuild/buf/private/pkg/storage/storagemem"
 	"github.com/bufbuild/buf/private/pkg/storage/storageos"
+	"github.com/bufbuild/bufverif/internal/bucketmodel"
 	"github.com/bufbuild/bufverif/internal/evid"
 	"github.com/bufbuild/bufverif/internal/pathgen"
 	"google.golang.org/protobuf/types/pluginpb"
@@ -321,14 +322,13 @@ func osBucket(dir string) storage.ReadWriteBucket {
 
 var diskComps = []string{"u1", "u2", "p", "q", "r"}
 
-func buildSubjects(tmp string) []*subject {
+// buildSubjects creates every bucket kind. fastDir holds the disk world shared by the disk kinds;
+// if realDir is not empty one more plain storageos kind ("os-tmpdir") gets its own world there.
+func buildSubjects(fastDir, realDir string) []*subject {
 	var out []*subject
 	memWorld := func(name string, comps ...string) *world { return &world{name: name, rootComps: comps} }
 	add := func(s *subject) { out = append(out, s) }
 
-	add(&subject{name: "mem", w: memWorld("mem"), wrap: func(w *world) (storage.ReadWriteBucket, storage.ReadBucket) {
-		return w.parent, nil
-	}})
 	prefixes := [][]string{{"p"}, {"p", "q"}, {"p", "q", "r"}}
 	for i, comps := range prefixes {
 		prefix := strings.Join(comps, "/")
@@ -336,6 +336,9 @@ func buildSubjects(tmp string) []*subject {
 			return storage.MapReadWriteBucket(w.parent, storage.MapOnPrefix(prefix)), nil
 		}})
 	}
+	add(&subject{name: "mem", w: memWorld("mem"), wrap: func(w *world) (storage.ReadWriteBucket, storage.ReadBucket) {
+		return w.parent, nil
+	}})
 	add(&subject{name: "map-mem-chain", w: memWorld("map-mem-chain", "p", "q", "r"), wrap: func(w *world) (storage.ReadWriteBucket, storage.ReadBucket) {
 		return storage.MapReadWriteBucket(w.parent, storage.MapOnPrefix("p"), storage.MapOnPrefix("q/r")), nil
 	}})
@@ -364,7 +367,7 @@ func buildSubjects(tmp string) []*subject {
 
 	// all disk kinds share one world (the same directory tree), rooted five levels deep so that up
 	// to five ".." stay inside the scratch base directory.
-	disk := &world{name: "disk", disk: true, base: filepath.Join(tmp, "c13world"), rootComps: diskComps}
+	disk := &world{name: "disk", disk: true, base: filepath.Join(fastDir, "c13world"), rootComps: diskComps}
 	rootDir := filepath.Join(append([]string{disk.base}, diskComps...)...)
 	add(&subject{name: "os", w: disk, osRoot: rootDir, wrap: func(w *world) (storage.ReadWriteBucket, storage.ReadBucket) {
 		return osBucket(rootDir), nil
@@ -381,13 +384,20 @@ func buildSubjects(tmp string) []*subject {
 		wrap: func(w *world) (storage.ReadWriteBucket, storage.ReadBucket) {
 			return nil, storage.FilterReadBucket(osBucket(rootDir), storage.MatchPathEqualOrContained("a"))
 		}})
+	if realDir != "" {
+		real := &world{name: "disk-tmpdir", disk: true, base: filepath.Join(realDir, "c13world"), rootComps: diskComps}
+		realRoot := filepath.Join(append([]string{real.base}, diskComps...)...)
+		add(&subject{name: "os-tmpdir", w: real, osRoot: realRoot, wrap: func(w *world) (storage.ReadWriteBucket, storage.ReadBucket) {
+			return osBucket(realRoot), nil
+		}})
+	}
 	return out
 }
 
 var (
 	readOps  = []string{"get", "stat", "walk", "copy-from"}
 	writeOps = []string{
-		"put", "put-atomic", "put-path", "copy-to", "delete", "delete-all",
+		"delete-all", "delete", "put", "put-atomic", "put-path", "copy-to",
 		"untar-s0", "untar-s1", "untar-s2", "unzip-s0", "unzip-s1", "unzip-s2",
 		"plugin-write", "plugin-insert",
 	}
@@ -395,14 +405,15 @@ var (
 
 func (s *subject) ops() []string {
 	s.ensure()
-	ops := append([]string{}, readOps...)
+	// mutating operations first: if a hostile string gets through, the first report shows the damage
+	var ops []string
 	if s.rw != nil {
 		ops = append(ops, writeOps...)
 		if s.osRoot != "" {
 			ops = append(ops, "plugin-os")
 		}
 	}
-	return ops
+	return append(ops, readOps...)
 }
 
 func mutating(op string) bool {
@@ -453,6 +464,13 @@ func buildTar(names []string, payload string) ([]byte, error) {
 		data := payload
 		if i == 0 {
 			data = "KEEP"
+		}
+		if strings.HasSuffix(name, "/") {
+			// archive/tar refuses a regular file with a trailing slash: a hostile directory entry then
+			if err := tw.WriteHeader(&tar.Header{Typeflag: tar.TypeDir, Name: name, Mode: 0o755}); err != nil {
+				return nil, err
+			}
+			continue
 		}
 		if err := tw.WriteHeader(&tar.Header{Typeflag: tar.TypeReg, Name: name, Size: int64(len(data)), Mode: 0o644}); err != nil {
 			return nil, err
@@ -574,7 +592,8 @@ func runOp(s *subject, op, p string) (res opResult) {
 				return
 			}
 			// storagearchive documents that "._" (Apple extended attribute) entries are ignored.
-			res.exempt = strings.HasPrefix(archiveBase(p), "._")
+			// (archive/tar takes the base name of the cleaned name for directory entries)
+			res.exempt = strings.HasPrefix(archiveBase(p), "._") || strings.HasPrefix(archiveBase(norm), "._")
 			res.err = storagearchive.Untar(ctx, bytes.NewReader(data), s.rw, storagearchive.UntarWithStripComponentCount(uint32(k)))
 		} else {
 			data, err := buildZip([]string{benignEntry, p}, res.written)
@@ -810,6 +829,13 @@ func nonTrivial(c c13Case) bool {
 func evalCase(t evid.TB, r *evid.Recorder, s *subject, c c13Case) bool {
 	r.Eval()
 	key, msg := judge(s, c, r.Class)
+	if norm, _ := pathgen.RefNormalize(c.Path); norm == ".." && (strings.HasPrefix(key, "escape-") || strings.HasSuffix(key, "-accepted")) {
+		// one root cause, whatever the symptom: the bare parent directory is taken for a contained path
+		if key != "bare-dotdot-accepted" {
+			msg = "[" + key + "] " + msg
+		}
+		key = "bare-dotdot-accepted"
+	}
 	if nonTrivial(c) {
 		r.NonTrivial(c.Kind + "\x00" + c.Op + "\x00" + c.Path)
 	}
@@ -868,12 +894,14 @@ func TestExhaustive(t *testing.T) {
 	maxComp := r.Pick(3, 4)
 	paths := pathgen.Enumerate(maxComp)
 	r.Extra("exhaustive_alphabet", pathgen.Alphabet)
-	r.Extra("exhaustive_max_components", maxComp)
-	if r.Shard == 0 {
+	if r.Shard == 0 { // the driver adds numeric extras of the shards up
+		r.Extra("exhaustive_max_components", maxComp)
 		r.Extra("exhaustive_distinct_strings", len(paths))
 		r.Extra("exhaustive_component_sequences_x_slash_variants", pathgen.RawCount(maxComp))
 	}
-	subjects := buildSubjects(t.TempDir())
+	fastDir, fsName := bucketmodel.FastScratchDir(t)
+	r.Extra("exhaustive_disk_world_on", fsName)
+	subjects := buildSubjects(fastDir, "")
 	var kinds []string
 	for _, s := range subjects {
 		kinds = append(kinds, s.name)
@@ -891,7 +919,7 @@ func TestExhaustive(t *testing.T) {
 				if !evalCase(t, r, s, c) {
 					continue
 				}
-				if nonTrivial(c) && sampled < 40 && (idx+len(op))%97 == 0 {
+				if nonTrivial(c) && sampled < 200 && evid.Hash(c.Kind+c.Op+c.Path)%1499 == 0 {
 					sampled++
 					r.Sample(c)
 				}
@@ -904,9 +932,13 @@ func TestExhaustive(t *testing.T) {
 // TestRandom draws longer hostile strings (unicode, spaces, backslashes, control characters).
 func TestRandom(t *testing.T) {
 	r := evid.R()
-	subjects := buildSubjects(t.TempDir())
-	r.Extra("random_max_components", 12)
-	r.Extra("random_max_dotdot_components", 4)
+	fastDir, fsName := bucketmodel.FastScratchDir(t)
+	r.Extra("random_disk_world_on", fsName+" (kind os-tmpdir: TMPDIR)")
+	subjects := buildSubjects(fastDir, t.TempDir())
+	if r.Shard == 0 {
+		r.Extra("random_max_components", 12)
+		r.Extra("random_max_dotdot_components", 4)
+	}
 	n := 0
 	r.Check(t, r.Scale(2400, 84000), 1, func(t *rapid.T) {
 		p := pathgen.GenHostilePath(4).Draw(t, "path")
@@ -943,7 +975,8 @@ func TestReplay(t *testing.T) {
 		checkFileNode(t, r, c.Path)
 		return
 	}
-	for _, s := range buildSubjects(t.TempDir()) {
+	fastDir, _ := bucketmodel.FastScratchDir(t)
+	for _, s := range buildSubjects(fastDir, t.TempDir()) {
 		if s.name == c.Kind {
 			if !contains(s.ops(), c.Op) {
 				t.Fatalf("harness: kind %s has no operation %q", c.Kind, c.Op)
